@@ -20,6 +20,14 @@ def check(run):
         run.broke('async_resolve not found')
     for ar in ars:
         run.touch(ar)
+        # canonical names for the locals the rules talk about, bound by what initialises them
+        ctv = q.alias_local(ar, 'completion_time', init_re=r'hostname_lookup\(')
+        if ctv is not None:
+            used = q.locals_in(ctv['init'])
+            q.alias_local(ar, 'start_time', pred=lambda v: v.get('did') in used and 'time_point' in ar.ty(v['t']))
+        q.alias_local(ar, 't', init_re=r'^\(sim::chrono::high_resolution_clock::now\(\) \+')
+        q.alias_local(ar, 'port', init_re=r'atoi\(', multi=True)
+        q.alias_local(ar, 'ec', pred=lambda v: ar.ty(v['t']).replace('const ', '').strip() in ('boost::system::error_code', 'error_code'))
         tag = 'udp' if 'udp' in ar.name else 'tcp'
         hl = [c for c in ar.calls() if (q.callee_name(c) or '').endswith('configuration::hostname_lookup')]
         inserts = [c for c in ar.calls() if (c.get('callee') or '').split('::')[-1] == 'insert' and q.render(ar, c.get('obj')) == 'm_queue']
@@ -42,7 +50,7 @@ def check(run):
             g = [(q.render(ar, a), p) for a, p in q.guards_at(ar, ins)]
             run.check(('ec', False) in g, 'R5', 'literal-guard', '%s<%s>' % (ar.norm, tag), ar.loc(ins), 'the literal insert is not guarded by the successful address parse (!ec)', 'guarded by !ec of make_address')
             run.check(q.render(ar, ins['args'][0]) == 'm_queue.begin()', 'R2k', 'literal-at-front', '%s<%s>' % (ar.norm, tag), ar.loc(ins), 'literal entries are not inserted at the front', 'insert(begin())')
-            tdef = [v for n in ar.all_nodes() if n['k'] == 'decl' for v in n['vars'] if v.get('name') == 't']
+            tdef = [v for v in [q.local_var(ar, 't')] if v]
             okt = bool(tdef) and 'now()' in q.render(ar, tdef[0]['init']) and any(x['k'] == 'int' and x['v'] == 1 for x in walk(tdef[0]['init'])) and any(('microseconds' in ar.ty(x) or 'ratio<1, 1000000>' in ar.ty(x)) for x in walk(tdef[0]['init']) if x['k'] in ('construct', 'cast'))
             run.check(okt, 'R4', 'literal-delay', '%s<%s>' % (ar.norm, tag), ar.loc(ins), 'literal completion time is not now() + 1 microsecond', 'now() + microseconds(1)')
         # the literal test is decided by the address parse alone
@@ -50,7 +58,7 @@ def check(run):
         for ins in inserts:
             other = []
             for n in ar.all_nodes():
-                if n['k'] == 'ref' and n.get('name') == 'ec' and n.get('dk') == 'local':
+                if n['k'] == 'ref' and q.render(ar, n) == 'ec' and n.get('dk') == 'local':
                     kind, site, meth, _c, _p = q.classify_access(ar, n)
                     if kind in ('assign', 'compound') or (kind == 'method' and meth in ('assign', 'clear')) or (kind == 'refarg' and site not in parses and not any(site is x for x in parses)):
                         if q.precedes(ar, site, ins) or (ar.cfg._reaches(ar.cfg.node_block(site), ar.cfg.node_block(ins)) and not ar.cfg._reaches(ar.cfg.node_block(ins), ar.cfg.node_block(site))):
@@ -77,7 +85,7 @@ def check(run):
         others = [x for x in ar.all_nodes() if x['k'] == 'call' and q.render(ar, x.get('obj')) == 'ips' and (x.get('callee') or '').split('::')[-1] not in ('emplace_back', 'push_back')]
         sorts = [c for c in ar.calls() if q.callee_name(c) in ('std::sort', 'std::reverse', 'std::stable_sort', 'std::shuffle', 'std::unique', 'std::rotate')]
         run.check(okl and not others and not sorts, 'R2k', 'results-order', '%s<%s>' % (ar.norm, tag), ar.loc(), 'the result list is not built by one forward pass appending (ip, port) for each configured address', 'single range-for over `result` with emplace_back(ip, port)')
-        ports = [v for n in ar.all_nodes() if n['k'] == 'decl' for v in n['vars'] if v.get('name') == 'port']
+        ports = [v for n in ar.all_nodes() if n['k'] == 'decl' for v in n['vars'] if (getattr(ar, 'alias', None) or {}).get(v.get('did'), v.get('name')) == 'port']
         run.check(bool(ports) and all(q.render(ar, v['init']) in ('atoi(service)', 'std::atoi(service)') for v in ports), 'R4', 'port-from-service', '%s<%s>' % (ar.norm, tag), ar.loc(), 'the port is not parsed from the service string', 'port = atoi(service)')
 
         if tag == 'tcp':
@@ -91,8 +99,8 @@ def check(run):
 
         if tag == 'tcp':
             run.clause('compounding: the start time of a host-name lookup is now() when idle and otherwise the completion time of the LAST queued entry')
-        st = [v for n in ar.all_nodes() if n['k'] == 'decl' for v in n['vars'] if v.get('name') == 'start_time']
-        ct = [v for n in ar.all_nodes() if n['k'] == 'decl' for v in n['vars'] if v.get('name') == 'completion_time']
+        st = [v for v in [q.local_var(ar, 'start_time')] if v]
+        ct = [v for v in [q.local_var(ar, 'completion_time')] if v]
         if not st or not ct or 'start_time' not in q.render(ar, ct[0]['init']):
             run.unrecognised('R5', 'compounding-origin', '%s<%s>' % (ar.norm, tag), ar.loc(), 'start_time / completion_time idiom not found')
         else:
@@ -128,6 +136,7 @@ def check(run):
     for ol in fx.fn(R + '::on_lookup'):
         run.touch(ol)
         tag = 'udp' if 'udp' in ol.name else 'tcp'
+        q.alias_local(ol, 'empty', init_re=r'^m_queue\.empty\(\)$')
         er = [c for op, c in q.container_calls(ol, 'm_queue', {'pop_front'})]
         allrm = [c for op, c in q.container_calls(ol, 'm_queue') if op in ('erase', 'pop_back', 'pop_front', 'clear')]
         run.check(len(er) == 1 and len(allrm) == 1, 'R2k', 'pop-front', '%s<%s>' % (ol.norm, tag), ol.loc(), 'on_lookup does not remove exactly the front entry', 'erase(begin())')
@@ -137,7 +146,7 @@ def check(run):
         arms = q.sites(ol, lambda f: [c for c in f.calls() if (q.callee_name(c) or '').endswith('high_resolution_timer::expires_at') and c.get('args') and q.render(f, c['args'][0]) == 'm_queue.front().completion_time'])
         rets = [r for r in q.returns(ol) if any(q.render(ol, a) in ('empty', 'm_queue.empty()') and p for a, p in q.guards_at(ol, r))]
         run.check(bool(inv) and all(q.must_follow(ol, f.site, arms + rets) for f in inv), 'R10', 'resolver-timer', '%s<%s>' % (ol.norm, tag), ol.loc(), 'after serving an entry the timer is not re-armed for the next one on every path where the queue is non-empty', 're-armed unless empty')
-        ed = [v for n in ol.all_nodes() if n['k'] == 'decl' for v in n['vars'] if v.get('name') == 'empty']
+        ed = [v for v in [q.local_var(ol, 'empty')] if v]
         if ed:
             run.check(q.render(ol, ed[0]['init']) == 'm_queue.empty()' and all(q.precedes(ol, er[0], n) for n in ol.all_nodes() if n['k'] == 'decl' and any(v is ed[0] for v in n['vars'])) if er else False,
                       'R10', 'resolver-empty-flag', '%s<%s>' % (ol.norm, tag), ol.loc(), '`empty` is not m_queue.empty() sampled after the pop', '`empty` sampled after the pop')
